@@ -5,11 +5,13 @@
 #include "common/rc_util.hpp"
 #include <cmath>
 #include <map>
+#include <set>
 
 using namespace vf;
 
 static const double kFM[2] = {7670454.0, 7987200.0}; // OPN2 (NTSC Mega Drive), OPNA master clocks
 
+static double expect_hz(double p) { return 440.0 * std::pow(2.0, (p - 69.0) / 12.0); }
 struct Pitch { bool valid = false; int block = 0, fnum = 0; int mul[4] = {0, 0, 0, 0}; double hz = 0, step = 0; size_t chan = 0; };
 
 // decodes the last frequency programmed on chip channel `c` among tap records [from, end)
@@ -32,13 +34,34 @@ static Pitch decode(size_t from, size_t c, int family) {
     p.hz = p.fnum * p.step;
     return p;
 }
+// all frequency pairs programmed on chip channel `c` among tap records [from, end) (a chip channel shared by several notes gets one pair per note)
+static std::vector<Pitch> decode_all(size_t from, size_t c, int family) {
+    std::vector<Pitch> v;
+    unsigned port = (unsigned)((c % 6) / 3), cc = (unsigned)(c % 3), chip = (unsigned)(c / 6);
+    int hi = -1; TapState &t = tap();
+    for(size_t i = from; i < t.log.size(); i++) {
+        const TapRec &w = t.log[i];
+        if(w.kind == 2 || w.chip != chip || w.port != port) continue;
+        if(w.reg == 0xA4 + cc) hi = (int)w.val;
+        else if(w.reg == 0xA0 + cc && hi >= 0) {
+            Pitch p; p.valid = true; p.chan = c; p.block = (hi >> 3) & 7; p.fnum = ((hi & 7) << 8) | (int)w.val;
+            p.step = std::ldexp(kFM[family] / (144.0 * 1048576.0), p.block - 1); p.hz = p.fnum * p.step; v.push_back(p);
+        }
+    }
+    return v;
+}
+static void judge_any(const std::vector<Pitch> &v, double pp, const char *ctx_) {
+    VCHECK(!v.empty(), "%s: a sounding key-down note was not re-pitched", ctx_);
+    double f = expect_hz(pp); std::string got;
+    for(const Pitch &p : v) { if(p.hz >= f - p.step && p.hz <= f + p.step) return; got += fmt("%.2f ", p.hz); }
+    VCHECK(false, "%s: none of the frequencies written (%s Hz) denotes the expected %.3f Hz", ctx_, got.c_str(), f);
+}
 // channels that received a key-on (0x28, 0xF0+code) in [from,end)
 static std::vector<size_t> keyed_in(size_t from) {
     std::vector<size_t> v; TapState &t = tap();
     for(size_t i = from; i < t.log.size(); i++) { const TapRec &w = t.log[i]; if(w.kind != 2 && w.reg == 0x28 && w.port == 0 && (w.val & 0xF0)) { int c = chan_from_code(w.val); if(c >= 0) v.push_back((size_t)w.chip * 6 + (size_t)c); } }
     return v;
 }
-static double expect_hz(double p) { return 440.0 * std::pow(2.0, (p - 69.0) / 12.0); }
 
 struct Rig {
     Inst I; int family = 0; OPN2_Bank mel, perc;
@@ -176,12 +199,11 @@ static void run_scenario(const Scn &s, SInfo &info) {
                 Pitch pt = decode(from, c, s.family);
                 if(u.sustained == 0) {
                     if(s.kind == 1 && glide_from.count({p.a, (int)u.note})) continue; // gliding notes are judged below
-                    double tone = u.note + (u.midch == 0 && W.I.play()->m_midiChannels[0].patch == 0 ? s.offset : 0);
+                    double tone = u.note + (W.I.play()->m_midiChannels[u.midch].patch == 0 ? s.offset : 0);
                     double pp = tone + bend[p.a] * (double)s.msb / 8192.0;
                     if(expect_hz(pp) >= 6600.0) continue;
                     std::string cx = fmt("bend fan-out step %zu: ch %d key %u bend %d range %d on chip channel %zu", i + 1, p.a, u.note, bend[p.a], s.msb, c);
-                    VCHECK(pt.valid, "%s: a sounding key-down note was not re-pitched by the pitch-bend message", cx.c_str());
-                    judge(pt, pp, pp, cx.c_str());
+                    judge_any(decode_all(from, c, s.family), pp, cx.c_str());
                 } else {
                     info.held_seen = true;
                     VCHECK(!pt.valid, "bend fan-out step %zu: pedal-held note %u/%u on chip channel %zu was re-pitched", i + 1, u.midch, u.note, c);
@@ -194,7 +216,7 @@ static void run_scenario(const Scn &s, SInfo &info) {
             for(auto it = glide_from.begin(); it != glide_from.end(); ++it) {
                 int ch = it->first.first, key = it->first.second; double start = it->second;
                 for(size_t c = 0; c < now.nchan; c++) for(const SnapUser &u : now.users[c]) if((int)u.midch == ch && (int)u.note == key && u.sustained == 0) {
-                    double off = (ch == 0 && W.I.play()->m_midiChannels[0].patch == 0) ? s.offset : 0;
+                    double off = (W.I.play()->m_midiChannels[(size_t)ch].patch == 0) ? s.offset : 0;
                     double bshift = bend[ch] * (double)s.msb / 8192.0;
                     double lo = std::min(start, (double)key) + off + bshift, hi = std::max(start, (double)key) + off + bshift;
                     if(expect_hz(hi) >= 6600.0) continue;
@@ -224,12 +246,11 @@ static void run_scenario(const Scn &s, SInfo &info) {
             opn2_rt_pitchBend(W.I.dev, (OPN2_UInt8)ch, (OPN2_UInt16)(bend[ch] + 8192)); W.drain_tap();
             for(size_t c = 0; c < pre.nchan; c++) for(const SnapUser &u : pre.users[c]) if((int)u.midch == ch && u.sustained == 0) {
                 Pitch pt = decode(from, c, s.family);
-                double off = (ch == 0 && W.I.play()->m_midiChannels[0].patch == 0) ? s.offset : 0;
+                double off = (W.I.play()->m_midiChannels[(size_t)ch].patch == 0) ? s.offset : 0;
                 double pp = u.note + off + bend[ch] * (double)s.msb / 8192.0;
                 if(expect_hz(pp) >= 6600.0) continue;
                 std::string cx = fmt("portamento end point: ch %d key %u on chip channel %zu", ch, u.note, c);
-                VCHECK(pt.valid, "%s: not re-pitched", cx.c_str());
-                judge(pt, pp, pp, cx.c_str());
+                (void)pt; judge_any(decode_all(from, c, s.family), pp, cx.c_str());
             }
         }
     }
@@ -248,6 +269,24 @@ static rc::Gen<std::vector<Op>> genScnOps(int kind) {
         return Op{O_ADVANCE, 10, 0, 0};
     });
     return gen::container<std::vector<Op>>(op);
+}
+// keeps the history within polyphony (a chip channel shared by several notes can only sound one of their pitches):
+// note-ons that could push the number of occupied chip channels beyond channels-1 are dropped (conservative count)
+static std::vector<Op> within_polyphony(const std::vector<Op> &in, size_t limit) {
+    std::vector<Op> out; std::set<std::pair<int, int>> down; size_t held[2] = {0, 0}; bool pedal[2] = {false, false};
+    for(const Op &p : in) {
+        if(p.kind == O_NOTEON && p.c > 0) {
+            bool was = down.count({p.a, p.b}) != 0;
+            size_t occ = down.size() + held[0] + held[1] + ((was && pedal[p.a]) ? 1 : 0) + (was ? 0 : 1);
+            if(occ > limit) continue;
+            if(was && pedal[p.a]) held[p.a]++;
+            down.insert({p.a, p.b});
+        } else if(p.kind == O_NOTEOFF || (p.kind == O_NOTEON && p.c == 0)) {
+            if(down.erase({p.a, p.b}) && pedal[p.a]) held[p.a]++;
+        } else if(p.kind == O_CC && p.b == 64) { pedal[p.a] = p.c >= 64; if(!pedal[p.a]) held[p.a] = 0; }
+        out.push_back(p);
+    }
+    return out;
 }
 namespace vf { void showValue(const Op &p, std::ostream &os) { os << kOpName[p.kind] << "(" << p.a << "," << p.b << "," << p.c << ")"; } }
 
@@ -268,12 +307,12 @@ int main(int argc, char **argv) {
         return finish();
     }
     pbt("c10_bend_fanout", c.n, 60, []() {
-        Scn s; s.kind = 0; s.family = *rng<int>(0, 1); s.msb = *rc::gen::element(0, 1, 2, 12, 24); s.offset = *rc::gen::element(0, 0, -12, 5, 24); s.ops = *genScnOps(0);
+        Scn s; s.kind = 0; s.family = *rng<int>(0, 1); s.msb = *rc::gen::element(0, 1, 2, 12, 24); s.offset = *rc::gen::element(0, 0, -12, 5, 24); s.ops = within_polyphony(*genScnOps(0), 11);
         std::string t = ser(s);
         run_case(t, [&] { SInfo si; run_scenario(s, si); ctx().stats.note_case(t, si.fanouts > 0); ctx().stats.label("bend_messages_judged", si.fanouts); if(si.held_seen) ctx().stats.label("pedal_held_note_present_at_bend"); });
     });
     pbt("c10_portamento", c.n, 60, []() {
-        Scn s; s.kind = 1; s.family = *rng<int>(0, 1); s.msb = 2; s.offset = *rc::gen::element(0, 0, -12, 5); s.porta = *rng<int>(1, 50); s.ops = *genScnOps(1);
+        Scn s; s.kind = 1; s.family = *rng<int>(0, 1); s.msb = 2; s.offset = *rc::gen::element(0, 0, -12, 5); s.porta = *rng<int>(1, 50); s.ops = within_polyphony(*genScnOps(1), 11);
         std::string t = ser(s);
         run_case(t, [&] { SInfo si; run_scenario(s, si); ctx().stats.note_case(t, si.glides > 0); ctx().stats.label("glide_repitches_judged", si.glides); });
     });
